@@ -14,13 +14,22 @@ CHECKS = {
     "C01": ("exploration", "runtime monitoring: every bn_* entry point executed in 9 digit-width/mul-div variants x gcc/clang x -O levels (plus ASan+UBSan, MSan) on one shared case stream; Python int decides each observation; two runs per case with different junk in dead storage decide value-only dependence; in-driver exhaustive enumeration at 8-bit digits",
             "Held on the cases explored: boundary-biased operands (0, 1, 2^k+-1, all-ones, single bit, dense random), Knuth-D adversarial divisions forcing 0/1/2 quotient corrections, primes of every residue class for mod_sqrt, NAF w=2..8 and JSF recoding, binary/hex import/export at every buffer size 0..need+1, all permitted aliasing forms; per-operation regions must-succeed / may-fail / must-fail from the documented contract: success with a wrong value is a violation, as are structural invariant breaks, writes above capacity, and any difference between the two junk patterns; all operand pairs a < 2^16 x b < 2^12 (slices in quick) are enumerated against unsigned __int128 inside the 8-bit builds.",
             "trusted: Python int, oracles/bn.py (Miller-Rabin, Tonelli, NAF/JSF property checkers; selftest in setup); Barrett, bn_egcd, bn_mod_inv3, bn_sqrt2-5 are outside the claim; operand space for >=32-bit digits is sampled; only gcc 12 / clang 14", "DESIGN.md 4 C01"),
+    "C02": ("exploration", "runtime monitoring: ec_point_* entry points executed in a covering set of build configurations (coordinate system, fixed-point/unknown-point/twin algorithm, window widths, mixed add, repeated doubling, digit widths) under ASan+UBSan and plain -O2 (MSan in thorough); Python affine group law decides every result; each case re-run with different junk in curve object, operands and dead stack decides value-only dependence",
+            "Held on the cases explored: all 32 built-in curves with operand relations {P,Q; same object; equal copy; P,-P; P,O; O,P; O,O; G; 2P} and scalars {0..4, n-2..n+1, (n+-1)/2, 2^i and 2^i+-1 at digit boundaries, all-ones, alternating, single comb column / window per position, random bit lengths}, twin multiplication incl. (k,n-k),(0,k),(k,0); tiny synthetic curves (p=23..131: prime order, a=0, a=p-3 with/without flag, cofactor 2 and 4 with y=0 points, b=0) with the whole group enumerated for add/sub/mult/twin; every configuration must equal the one Python reference, hence each other.",
+            "trusted: oracles/ec.py (affine group law, brute-force group order on tiny curves, selftest in setup); the configuration space is a covering sample (13 quick / 179 thorough), not the product; affine + INTER twin does not link and is recorded not selectable; synthetic curves may declare m > bitlen(p)", "DESIGN.md 4 C02"),
+    "C03": ("exploration", "runtime monitoring: ecdsa_sign/verify/verify_priv_key (byte and bn level, BE and LE) executed under ASan+UBSan in five build configurations; a from-scratch reference ECDSA / GOST R 34.10 signer and verifier decides every signature and every accept/reject; the BN_RET_ON_ERR failpoint fails the k-th internal bignum call (stride-sampled plans) and any success after an internal failure is a violation",
+            "Held on the cases explored: curves (10 seeded-rotating in quick incl. secp521r1, a cofactor-4, a Brainpool, an n-longer-than-p and three GOST curves; all 32 in thorough) x d in {1,2,n-1,random} x hash values {0,1,n-1,n,n+1,2^(8b)-1,random} of lengths 1..2b+1 x nonces {0,1,n-1,n,max,random}; ~27 mutations per signature (bit flips, r/s in {0,n,n+r}, swapped, wrong key, neutral key) through both verifiers; over-wide / invalid bn objects; the library's signature must equal the reference signature for the same nonce and both verifiers' decisions must equal the standard's.",
+            "trusted: oracles/ecdsa.py (RFC 6979 A.2.5/P-192, X9.62 J.3.1, RFC 7091 vectors in setup) on top of oracles/ec.py; under EC_DISABLE_PUB_KEY_CHK acceptance of a finite non-validated key is not judged; refusal to sign valid input is an observation; fault positions are sampled", "DESIGN.md 4 C03"),
+    "C09": ("exploration", "runtime monitoring: key export/import/generation/recovery/Diffie-Hellman entry points executed under ASan+UBSan on exact-size buffers in five build configurations (EC_DISABLE_PUB_KEY_CHK on and off); reference SEC 1 codec, point validation (on curve and annihilated by n), key derivation and cofactor DH decide; failpoint plans on keygen/recover/dh",
+            "Held on the cases explored: export in 3 layouts x import in 4 layouts x 2 byte orders must round-trip; ~45 invalid imports per curve (off-curve, coordinates >= p, non-residue x, y=0 and wrong-order points on the cofactor curves, wrong prefix bytes, every total length 0..2b+2) judged by the validity predicate, compressed input must give the requested parity; key generation, public from private and DH (4 peer layouts x cofactor flag, invalid peers) equal the reference and DH is symmetric; exact-size sweeps of rnd_size, sign_size, priv_key_size, hash_size, pub_key_size under ASan.",
+            "trusted: oracles/ecdsa.py + oracles/ec.py (Tonelli-Shanks, true cofactor); hybrid prefixes 06/07 are not judged; curves sampled in quick (all 32 in thorough)", "DESIGN.md 4 C09"),
     "C04": ("exploration", "runtime monitoring: real hash code in every compiled transform variant (portable/SSE/SHA-NI/AVX/small tables, gcc+clang, -O0/-O2/-O3, ASan+UBSan, MSan) driven over exhaustive lengths, chunkings and alignments in exact-size buffers; hashlib and an independent Python Streebog decide; context non-interference monitor for zeroisation",
             "Held on the cases explored: every length 0..4 blocks with one-shot, byte-wise, all 2-way and random k-way splits incl. empty updates, all 64 source alignments at padding-adjacent lengths, 64 KiB and 1 MiB+1 messages, bit-counter state injection near 2^29/2^32/2^61/2^64 (and 2^124 for SHA-512), every compiled-in transform forced through the dispatch flags; digests, reported sizes and hex text of the three entry points compared with hashlib / Python Streebog (validated on RFC 6986/7836); after final the context image must not depend on the message.",
             "trusted: Python hashlib; oracles/streebog.py and oracles/mdhash.py (self-tested against RFC vectors / hashlib in setup); variants that do not compile are recorded not_selectable; only gcc 12 and clang 14", "DESIGN.md 4 C04"),
     "C05": ("exploration", "runtime monitoring: real pool under ASan+UBSan+LSan and TSan, offline exactly-once/FIFO/affinity checker over a client-boundary event log, injected queue write/read faults, seeded schedule perturbation",
             "Held on the executions explored: hundreds of seeded scenarios (pool sizes 1-16, external/pool/self senders, all 8 flag combinations, never-started and STARTING destinations, shared virtual thread, pipe-full EAGAIN, injected EAGAIN/EPIPE/EBADF at the first 64 queue writes and sampled later ones, EINTR/EAGAIN on queue reads) with every message carrying a unique id and every history checked offline; exploration because schedules are sampled, not enumerated.",
             TP_NOTE, "DESIGN.md 4 C05"),
-    "C07": ("exploration", "runtime monitoring: HMAC entry points (streaming, one-shot, digest, hex) in the C04 build variants under ASan+UBSan/MSan; hmac.new / RFC 2104 over the Python Streebog decide; key block freed after init (use-after-free monitor) and context non-interference monitor for pad wiping",
+    "C07": ("exploration", "runtime monitoring: HMAC entry points (streaming, one-shot, digest, hex) in the C04 build variants under ASan+UBSan/MSan; hmac.new / RFC 2104 over the Python Streebog decide; key block freed after init (use-after-free monitor), context non-interference monitor for pad wiping, and a private-stack residue scan for K' xor ipad/opad after each entry point returns (non-sanitizer builds)",
             "Held on the cases explored: all eight hash variants, key lengths 0..3 blocks (every length in thorough; every boundary and every 5th otherwise in quick), messages/chunkings from the C04 generator, context reuse with a second key; MAC, sizes and entry-point agreement checked against the reference; after final the HMAC context (incl. k_opad) must be identical for twin keys/messages.",
             "trusted: Python hashlib/hmac and oracles/streebog.py (RFC 7836 HMAC vectors in setup)", "DESIGN.md 4 C07"),
     "C08": ("exploration", "runtime monitoring: ChaCha/HChaCha/XChaCha and GOST 28147-89 executed in gcc/clang x -O0..-O3 x {default, -fno-strict-aliasing} x {expanded, small tables} builds plus ASan+UBSan and MSan, exact-size buffers with alignment sweeps; from-scratch Python references decide every output and the counter",
